@@ -123,7 +123,12 @@ func runNBRandom(w *rt.World, res *hx.Result, kind int) *hx.Violation {
 				qn = []string{churnName}
 			}
 			idc += 1 + uint16(g.names[1]%3)
-			b := buildRequest(idc, 0, uint16(g.names[2]%2)<<8, qn, "", nil, 0, false)
+			var b []byte
+			if shape := g.names[1] % 12; shape >= 1 && shape <= 5 && !churnQ && g.big != 0 {
+				b = buildVariedQuery(idc, shape, qn, uint16(g.names[2]%2)<<8)
+			} else {
+				b = buildRequest(idc, 0, uint16(g.names[2]%2)<<8, qn, "", nil, 0, false)
+			}
 			cl.reqs = append(cl.reqs, &nbReq{id: idc, bytes: b, sig: stripID(b), tcp: cl.tcp, churn: churnQ})
 			cl.gaps = append(cl.gaps, g.gap)
 		}
